@@ -1,5 +1,5 @@
 (** C20 — proofs about Model/Protocols.v *)
-From KV Require Import Bytes RustInt Range CacheControl Cache CacheProofs Protocols.
+From KV Require Import Bytes RustInt Range RangeProofs CacheControl Cache CacheProofs Protocols.
 From Coq Require Import ZifyBool ZifyNat ZifyN.
 Open Scope N_scope.
 Arguments N.add : simpl never. Arguments N.sub : simpl never. Arguments N.mul : simpl never.
@@ -793,3 +793,283 @@ Section Streams.
   Qed.
 
 End Streams.
+
+(** ---------------------------------------------------------------------------------------------
+    one connection, a history of requests with bodies
+    --------------------------------------------------------------------------------------------- *)
+Section ConnLoopProofs.
+  Variable S Q : Type.
+  Variable ans : proto -> bool -> S -> N -> Q -> S * outcome wreply.
+  Variable q_method : Q -> N.
+  Variable q_len : Q -> N.
+  Variable q_early : Q -> N.
+  Variable wants : S -> Q -> option N.
+
+  Notation loopX := (conn_loop S Q ans q_method q_len q_early wants).
+  Notation seqX := (serve_seq S Q ans).
+  Notation declaredX := (body_declared Q q_method q_len).
+
+  (** the repaired HTTP/1 loop leaves nothing of a declared body on the connection, whatever the handler read and
+      however the bytes were segmented *)
+  Lemma h1_after_drain s q : declaredX q -> h1_after S Q q_method q_len q_early wants true s q = COpen.
+  Proof.
+    unfold body_declared, h1_after. intros H.
+    destruct (pr_no_request_body (q_method q)).
+    - rewrite (H eq_refl). destruct (_ <? 0) eqn:E; [lia | reflexivity].
+    - destruct (_ <? q_len q) eqn:E; [lia | reflexivity].
+  Qed.
+
+  (** HTTP/2: every request is answered, by the application in the state its predecessors left — with or without the repair *)
+  Lemma conn_loop_h2 drain secure s now dt qs :
+    loopX H2 drain secure s COpen now dt qs = map Some (seqX H2 secure s now dt qs).
+  Proof.
+    revert s now. induction qs as [|q qs IH]; intros s now; cbn [conn_loop serve_seq map]; [reflexivity|].
+    destruct (ans H2 secure s now q) as [s' w]. cbn [map]. rewrite IH. reflexivity.
+  Qed.
+
+  (** HTTP/1 (repaired): the same, as long as no answer makes the connection's task panic *)
+  Lemma conn_loop_h1 secure s now dt qs :
+    Forall declaredX qs -> Forall (fun w => exists r, w = Ok r) (seqX H1 secure s now dt qs) ->
+    loopX H1 true secure s COpen now dt qs = map Some (seqX H1 secure s now dt qs).
+  Proof.
+    revert s now. induction qs as [|q qs IH]; intros s now Hd Hok; cbn [conn_loop serve_seq map] in *; [reflexivity|].
+    destruct (ans H1 secure s now q) as [s' w]. cbn [map].
+    inversion Hd as [|? ? Hq Hd']; subst. inversion Hok as [|? ? [r Hw] Hok']; subst.
+    rewrite (h1_after_drain s q Hq), (IH s' (now + dt) Hd' Hok'). reflexivity.
+  Qed.
+
+  (** parity of the specification's view, from parity of one step *)
+  Hypothesis step_state : forall secure1 s now q, fst (ans H1 secure1 s now q) = fst (ans H2 true s now q).
+  Hypothesis step_parity : forall secure1 s now q, onorm (snd (ans H1 secure1 s now q)) = onorm (snd (ans H2 true s now q)).
+
+  Lemma serve_seq_parity secure1 s now dt qs :
+    map onorm (seqX H1 secure1 s now dt qs) = map onorm (seqX H2 true s now dt qs).
+  Proof.
+    revert s now. induction qs as [|q qs IH]; intros s now; cbn [serve_seq map]; [reflexivity|].
+    pose proof (step_state secure1 s now q) as Hs. pose proof (step_parity secure1 s now q) as Hp.
+    destruct (ans H1 secure1 s now q) as [s1 w1]. destruct (ans H2 true s now q) as [s2 w2].
+    cbn [fst snd] in Hs, Hp. subst s2. cbn [map]. rewrite Hp, IH. reflexivity.
+  Qed.
+End ConnLoopProofs.
+
+Lemma onorm_ok_inv o : (exists r, onorm o = Ok r) -> exists r, o = Ok r.
+Proof. destruct o as [w|e|]; cbn [onorm]; intros [r H]; try discriminate. exists w. reflexivity. Qed.
+
+Lemma map_onorm_ok l l' :
+  map onorm l = map onorm l' -> Forall (fun w => exists r, w = Ok r) l' -> Forall (fun w : outcome wreply => exists r, w = Ok r) l.
+Proof.
+  revert l'. induction l as [|a l IH]; intros [|a' l'] H F; cbn [map] in H; try discriminate; constructor.
+  - inversion H as [[Ha Hl]]. inversion F as [|? ? [r Hr] F']; subst. apply onorm_ok_inv. rewrite Ha.
+    exists (normalise r). reflexivity.
+  - inversion H as [[Ha Hl]]. inversion F as [|? ? _ F']; subst. exact (IH _ Hl F').
+Qed.
+
+(** [send] answers or panics (in [apply_range]); it has no error value *)
+Lemma send_ok_or_panic checked error_page pkg p secure alt m sd r :
+  send checked error_page pkg p secure alt m sd r = Panic \/ exists w, send checked error_page pkg p secure alt m sd r = Ok w.
+Proof.
+  unfold send. destruct (apply_sd checked error_page sd (add_alt_svc secure alt r)) as [a|e|] eqn:E; cbn [obind].
+  - right. destruct p; [eexists; reflexivity|]. destruct (h2_refuses _); eexists; reflexivity.
+  - exfalso. unfold apply_sd in E. destruct sd as [rg|e'|]; try discriminate.
+    destruct (apply_range checked rg _ _); discriminate.
+  - left. reflexivity.
+Qed.
+
+(** ... and it does not panic for what [sanitize_request] hands it (repaired range arithmetic, C09) *)
+Lemma apply_range_panic_status checked rg st body :
+  apply_range checked rg st body = Panic -> apply_range checked rg 200 body = Panic.
+Proof.
+  unfold apply_range. destruct rg as [[a c]|]; [|discriminate].
+  destruct (N.of_nat (length body) <=? a); [discriminate|].
+  destruct (sub_u64 checked _ 1) as [e|e|]; cbn [obind]; try discriminate; [|reflexivity].
+  destruct (slice_chk _ _ body) as [sl|e'|]; cbn [obind]; try discriminate. reflexivity.
+Qed.
+
+Lemma add_alt_svc_body secure alt r : rs_body (add_alt_svc secure alt r) = rs_body r.
+Proof. unfold add_alt_svc. destruct alt; [destruct secure|]; reflexivity. Qed.
+Lemma add_alt_svc_status secure alt r : rs_status (add_alt_svc secure alt r) = rs_status r.
+Proof. unfold add_alt_svc. destruct alt; [destruct secure|]; reflexivity. Qed.
+
+Lemma send_no_panic checked error_page pkg p secure alt m path_ok hdr r :
+  N.of_nat (length (rs_body r)) <= u64_max ->
+  send checked error_page pkg p secure alt m (sd_of path_ok hdr) r <> Panic.
+Proof.
+  intros Hlen HP.
+  destruct (send_ok_or_panic checked error_page pkg p secure alt m (sd_of path_ok hdr) r) as [_|[w Hw]];
+    [|rewrite Hw in HP; discriminate].
+  unfold send in HP.
+  destruct (apply_sd checked error_page (sd_of path_ok hdr) (add_alt_svc secure alt r)) as [a|e|] eqn:E; cbn [obind] in HP.
+  - destruct p; [discriminate|]. destruct (h2_refuses _); discriminate.
+  - discriminate.
+  - clear HP. unfold apply_sd, sd_of in E. rewrite add_alt_svc_body, add_alt_svc_status in E.
+    pose proof (serve_range_no_panic checked hdr (rs_body r) Hlen) as NP. unfold serve_range in NP.
+    destruct path_ok; [|discriminate].
+    destruct (sanitize_range hdr) as [rg|e|]; try discriminate; [|exact (NP eq_refl)].
+    destruct (apply_range checked rg (rs_status r) (rs_body r)) eqn:A; try discriminate.
+    apply apply_range_panic_status in A. rewrite A in NP. exact (NP eq_refl).
+Qed.
+
+(** ---- the history above layer 4 ---- *)
+Section HistoryParity.
+  Variable hstate : Type.
+  Variable compute : hstate -> request -> bool -> fat * hstate * list bytes.
+  Variable cache_on ims_on : bool.
+  Variable parse_ims : bytes -> option Z.
+  Variable sanitize_ok : request -> bool.
+  Variable prime : request -> request.
+  Variable negotiate : request -> fat -> option (N * bytes).
+  Variable vary_tuple : request -> tuple.
+  Variable vary_header : request -> fat -> list (bytes * bytes).
+  Variable checked : bool.
+  Variable error_page : N -> resp.
+  Variable pkg : N -> headers -> headers.
+  Variable alt : option bytes.
+  Variable sanitize : request -> outcome (option (N * N)).
+  Variable encode : request -> N -> headers -> bytes -> headers * bytes.
+  Variable hversion : N.
+  Variable wants : state hstate -> request -> option N.
+  Hypothesis Hpkg : pkg_oblivious pkg.
+
+  Notation histX := (conn_hist hstate compute cache_on ims_on parse_ims sanitize_ok prime negotiate vary_tuple
+                               vary_header checked error_page pkg alt sanitize encode hversion wants).
+  Notation answersX := (answers hstate compute cache_on ims_on parse_ims sanitize_ok prime negotiate vary_tuple
+                                vary_header checked error_page pkg alt sanitize encode hversion).
+  Notation stepX := (ans_step hstate compute cache_on ims_on parse_ims sanitize_ok prime negotiate vary_tuple
+                              vary_header checked error_page pkg alt sanitize encode hversion).
+  Notation answerX := (answer hstate compute cache_on ims_on parse_ims sanitize_ok prime negotiate vary_tuple
+                              vary_header checked error_page pkg alt sanitize encode hversion).
+
+  Lemma ans_step_answer p secure st now b : snd (stepX p secure st now b) = answerX p secure st now (b_req b).
+  Proof.
+    unfold ans_step, answer.
+    destruct (serve hstate compute cache_on ims_on parse_ims sanitize_ok prime negotiate vary_tuple vary_header st now (b_req b))
+      as [[st' rp] lg]. reflexivity.
+  Qed.
+
+  Lemma ans_step_state secure1 st now b : fst (stepX H1 secure1 st now b) = fst (stepX H2 true st now b).
+  Proof.
+    unfold ans_step.
+    destruct (serve hstate compute cache_on ims_on parse_ims sanitize_ok prime negotiate vary_tuple vary_header st now (b_req b))
+      as [[st' rp] lg]. reflexivity.
+  Qed.
+
+  Lemma answers_parity secure1 st now dt bs :
+    map onorm (answersX H1 secure1 st now dt bs) = map onorm (answersX H2 true st now dt bs).
+  Proof.
+    unfold answers. apply serve_seq_parity.
+    - intros. apply ans_step_state.
+    - intros. rewrite !ans_step_answer. apply answer_parity. exact Hpkg.
+  Qed.
+
+  Definition declared_b (b : breq) : Prop := pr_no_request_body (rq_method (b_req b)) = true -> b_len b = 0.
+
+  Lemma history_parity_lemma secure1 st now dt bs :
+    Forall declared_b bs ->
+    Forall (fun w => w <> Panic) (answersX H2 true st now dt bs) ->
+    histX H1 true secure1 st now dt bs = map Some (answersX H1 secure1 st now dt bs) /\
+    histX H2 true true st now dt bs = map Some (answersX H2 true st now dt bs) /\
+    map onorm (answersX H1 secure1 st now dt bs) = map onorm (answersX H2 true st now dt bs).
+  Proof.
+    intros Hd Hnp. pose proof (answers_parity secure1 st now dt bs) as Hpar.
+    split; [|split; [apply conn_loop_h2 | exact Hpar]].
+    unfold conn_hist, answers. apply conn_loop_h1; [exact Hd|].
+    apply (map_onorm_ok _ _ Hpar).
+    assert (G : forall s n l, Forall (fun w => w <> Panic) (serve_seq (state hstate) breq stepX H2 true s n dt l) ->
+                              Forall (fun w : outcome wreply => exists r, w = Ok r) (serve_seq (state hstate) breq stepX H2 true s n dt l)).
+    { intros s n l. revert s n. induction l as [|b l IH]; intros s n F; cbn [serve_seq] in *; [constructor|].
+      pose proof (ans_step_answer H2 true s n b) as Ha.
+      destruct (stepX H2 true s n b) as [s' w]. cbn [snd] in Ha.
+      inversion F as [|? ? Hw F']; subst. constructor; [|exact (IH _ _ F')].
+      unfold answer in Hw |- *.
+      destruct (serve hstate compute cache_on ims_on parse_ims sanitize_ok prime negotiate vary_tuple vary_header s n (b_req b))
+        as [[st' rp] lg].
+      destruct (send_ok_or_panic checked error_page pkg H2 true alt (rq_method (b_req b)) (sanitize (b_req b))
+                                 (l4_resp encode hversion (b_req b) rp)) as [P|E]; [contradiction | exact E]. }
+    apply G. exact Hnp.
+  Qed.
+End HistoryParity.
+
+(** ---- the executable history of the correspondence ([pair_hist], components proto.pair / proto.answered) ---- *)
+Section PairHist.
+  Variable checked : bool.
+  Variable ops : list pkg_op.
+  Variable alt : option bytes.
+  Variable e416 : resp.
+  Hypothesis Hops : Forall (fun o => hop (pkg_op_name o) = false) ops.
+
+  Definition ex_in_domain (e : exch) : Prop :=
+    (pr_no_request_body (ex_method e) = true -> ex_blen e = 0) /\ N.of_nat (length (rs_body (ex_l4 e))) <= u64_max.
+
+  Lemma ex_seq p secure exs :
+    serve_seq unit exch (ex_ans checked ops alt e416) p secure tt 0 1 exs = map (send_ex checked ops alt e416 p secure) exs.
+  Proof.
+    generalize 0 at 1. induction exs as [|e exs IH]; intros n; cbn [serve_seq map ex_ans]; [reflexivity|].
+    rewrite IH. reflexivity.
+  Qed.
+
+  Lemma send_ex_resp p secure e : ex_in_domain e -> exists r, send_ex checked ops alt e416 p secure e = Ok (WResp r).
+  Proof.
+    intros [_ Hlen]. unfold send_ex.
+    destruct (send_ok_or_panic checked (fun _ => e416) (pkg_menu ops) p secure alt (ex_method e)
+                               (sd_of (ex_path_ok e) (ex_range e)) (ex_l4 e)) as [P|[w Hw]].
+    - exfalso. exact (send_no_panic _ _ _ _ _ _ _ _ _ _ Hlen P).
+    - destruct w as [r|]; [exists r; exact Hw|].
+      exfalso. exact (send_never_refused _ _ _ _ _ _ _ _ _ Hw).
+  Qed.
+
+  Lemma pair_hist_eq p secure exs :
+    Forall ex_in_domain exs ->
+    pair_hist checked ops alt e416 p true secure exs = map (fun e => Some (send_ex checked ops alt e416 p secure e)) exs.
+  Proof.
+    intros Hd. unfold pair_hist. rewrite <- (map_map (send_ex checked ops alt e416 p secure) Some), <- ex_seq.
+    destruct p; [|apply conn_loop_h2].
+    apply conn_loop_h1.
+    - apply Forall_forall. intros e He. exact (proj1 (proj1 (Forall_forall _ _) Hd e He)).
+    - rewrite ex_seq. apply Forall_forall. intros w Hw. apply in_map_iff in Hw as (e & <- & He).
+      destruct (send_ex_resp H1 secure e (proj1 (Forall_forall _ _) Hd e He)) as [r Hr]. rewrite Hr. eexists; reflexivity.
+  Qed.
+
+  (** for EVERY history in the domain the model component equals the specification component: all requests are
+      answered with a response on both connections, and the answers agree up to [normalise] *)
+  Lemma pair_hist_answered secure1 exs :
+    Forall ex_in_domain exs ->
+    forallb is_resp (pair_hist checked ops alt e416 H1 true secure1 exs) = true /\
+    forallb is_resp (pair_hist checked ops alt e416 H2 true true exs) = true /\
+    map (option_map onorm) (pair_hist checked ops alt e416 H1 true secure1 exs)
+      = map (option_map onorm) (pair_hist checked ops alt e416 H2 true true exs).
+  Proof.
+    intros Hd. rewrite !pair_hist_eq by exact Hd.
+    assert (A : forall p secure, forallb is_resp (map (fun e => Some (send_ex checked ops alt e416 p secure e)) exs) = true).
+    { intros p secure. apply forallb_forall. intros o Ho. apply in_map_iff in Ho as (e & <- & He).
+      destruct (send_ex_resp p secure e (proj1 (Forall_forall _ _) Hd e He)) as [r Hr]. rewrite Hr. reflexivity. }
+    split; [apply A | split; [apply A|]].
+    rewrite !map_map. apply map_ext. intros e. cbn [option_map]. f_equal. unfold send_ex.
+    apply send_parity. apply pkg_menu_oblivious. exact Hops.
+  Qed.
+End PairHist.
+
+(** before the repair dfe4d54 (no [drain]) an unread request body broke the HTTP/1 connection only: the witness of
+    the former known finding, PUT /echo with [range: bytes=10-4] and 700 body bytes (the Range is refused, no handler
+    runs), then GET *)
+Definition wit_page : resp := mkResp V11 200 [(B "content-type", B "text/plain")] (B "0123456789").
+Lemma unread_body_v0_refuted_lemma : exists checked ops alt e416 exs,
+  Forall (fun e => pr_no_request_body (ex_method e) = true -> ex_blen e = 0) exs /\
+  forallb is_resp (pair_hist checked ops alt e416 H1 false true exs) = false /\
+  forallb is_resp (pair_hist checked ops alt e416 H2 false true exs) = true /\
+  forallb is_resp (pair_hist checked ops alt e416 H1 true true exs) = true.
+Proof.
+  exists false, [], None, wit_page,
+    [mkEx M_OTHER (Some (B "bytes=10-4")) true wit_page 700 None; mkEx M_GET None true wit_page 0 None].
+  split; [|vm_compute; repeat split].
+  constructor; [|constructor; [|constructor]]; cbn [ex_method ex_blen]; intros H; [discriminate H | reflexivity].
+Qed.
+
+(** the domain hypothesis is needed: the [content-length] of a GET is not looked at ([get_body_length_request]), so
+    body bytes of a GET that arrive after its head are in front of the next request line on HTTP/1 — also with [drain] *)
+Lemma undeclared_body_refuted_lemma : exists checked ops alt e416 exs,
+  forallb is_resp (pair_hist checked ops alt e416 H1 true true exs) = false /\
+  forallb is_resp (pair_hist checked ops alt e416 H2 true true exs) = true.
+Proof.
+  exists false, [], None, wit_page, [mkEx M_GET None true wit_page 5 None; mkEx M_GET None true wit_page 0 None].
+  vm_compute. split; reflexivity.
+Qed.
